@@ -418,4 +418,20 @@ example (env : Env) (hp : RulesProgress env.cfg = true) (hnf : env.faultAt = non
     accAfter ([] : List (Member env F (P.core F (D + 1 + 1 + 1 + 1)))) acc = acc :=
   ⟨rfl, rfl, rfl⟩
 
+/-- **nested classes**: a class nested in a class body is itself a member (`Member.cls`): from any
+    state inside the outer class, with ANY access level `acc` in force, its start callback, its
+    members' callbacks read from ITS key's default level, its end callback; afterwards the outer
+    class is on top again with `acc` still in force -/
+theorem C03_nested_class (env : Env) (hc : env.cfg = genLexCfg) (hnf : env.faultAt = none) (hskip : ∀ i h, env.skip i h = false)
+    (F D : Nat) (kw first : Tok) (pairs : List (Tok × Tok)) (ms : List (Member env F (P.core F (D + 1 + 1 + 1 + 1))))
+    (w : World) (b' : Buf) (blk : Block) (rest : List Block) (acc : String) (hst : w.stack = blk :: rest)
+    (hk : blk.hdr.kind = .cls) (hacc : blk.access = some acc) (hmu : w.muted = false)
+    (hat : (Member.cls env (by rw [hc]; exact gen_rules_progress) hnf F D hskip kw first pairs ms).At w.buf b') :
+    ∃ (w7 : World) (evs : List Event), RanC env F (P.core F (D + 1 + 1 + 1 + 1)) w (mseqSize ms + 2) b' blk rest acc evs w7 ∧
+      BlockEvents blk
+        (fun h => h.kind = .cls ∧ h.access = some (defaultAccess kw.value) ∧ h.cls.access = some acc ∧
+          h.cls.typename = .mk (.name first.value none :: pairs.map (fun p => .name p.2.value none)) (some kw.value) false)
+        (fun nb mid => MSeqEv nb (blk :: rest) ms (defaultAccess kw.value) mid) evs :=
+  (Member.cls env (by rw [hc]; exact gen_rules_progress) hnf F D hskip kw first pairs ms).sound w b' blk rest acc hst hk hacc hmu hat
+
 end Cxx
